@@ -1,5 +1,5 @@
 (* C14 Preprocessing is a transparent optimisation *)
-From LD Require Import Base F32 Data Model Ops Bucket Eval EvalFacts Codec Targets Prep.
+From LD Require Import Base F32 Data Model Ops Bucket Eval EvalFacts Codec Targets Prep PrepEval DecodePlain.
 
 Theorem C14_clause : forall re_ok re_match cl x, plain_clause cl ->
   clause_match_noseg re_ok re_match (preprocess_clause re_ok cl) x = clause_match_noseg re_ok re_match cl x.
@@ -34,3 +34,38 @@ Print Assumptions C14_key_sets.
 Theorem C14_target : forall c t, t_pre t = None -> target_match c (pp_target t) = target_match c t.
 Proof. exact target_match_pre. Qed.
 Print Assumptions C14_target.
+
+(* ---- whole evaluations ----
+   pp_env E preprocesses every flag and segment of the store (what the decoder and the builders do); plain_env E says the
+   store holds hand-built values with no precomputed data at all. The two evaluations return the same value, index, full
+   reason (kind, rule index/id, prerequisite key, error kind, experiment bit, big-segment status), the same experiment
+   flag, and the same trace -- flag and segment reads, big-segment queries and membership look-ups, log lines, one event
+   per prerequisite evaluation in the same order; pp_obs maps an event to the same event carrying the preprocessed form of
+   the prerequisite flag it reports and is the identity on everything else. *)
+Theorem C14_whole_evaluation : forall re_ok re_match o E P c, plain_env E -> forall f, plain_flag f ->
+  run re_ok re_match o (pp_env re_ok E) P c (preprocess_flag re_ok f) =
+  match run re_ok re_match o E P c f with Done r => Done (pp_out re_ok r) | Panic => Panic | OutOfFuel => OutOfFuel end.
+Proof. exact preprocessed_store_same_evaluation. Qed.
+Print Assumptions C14_whole_evaluation.
+
+Theorem C14_whole_evaluation_observables : forall re_ok re_match o E P c f r,
+  plain_env E -> plain_flag f -> run re_ok re_match o E P c f = Done r ->
+  exists r', run re_ok re_match o (pp_env re_ok E) P c (ppf re_ok f) = Done r' /\
+             out_detail r' = out_detail r /\ out_isexp r' = out_isexp r /\
+             out_trace r' = map (pp_obs re_ok) (out_trace r) /\ length (out_trace r') = length (out_trace r).
+Proof. exact preprocessing_is_transparent. Qed.
+Print Assumptions C14_whole_evaluation_observables.
+
+(* the decoder never fills in precomputed data, so the theorem covers "obtained by JSON decoding" (decode, then
+   preprocess) against the bare decoded value, for every accepted document and every store built by decoding *)
+Theorem C14_decoded_values_are_plain : forall j f, decode_flag j = Some f -> plain_flag f.
+Proof. exact decode_flag_plain. Qed.
+Print Assumptions C14_decoded_values_are_plain.
+Theorem C14_decoded_segments_are_plain : forall j sg, decode_segment j = Some sg -> plain_segment sg.
+Proof. exact decode_segment_plain. Qed.
+Print Assumptions C14_decoded_segments_are_plain.
+Theorem C14_json_decoding : forall re_ok re_match o E P c j f, decoded_env E -> decode_flag j = Some f ->
+  run re_ok re_match o (pp_env re_ok E) P c (preprocess_flag re_ok f) =
+  match run re_ok re_match o E P c f with Done r => Done (pp_out re_ok r) | Panic => Panic | OutOfFuel => OutOfFuel end.
+Proof. exact decoded_then_preprocessed_same_evaluation. Qed.
+Print Assumptions C14_json_decoding.
